@@ -142,7 +142,7 @@ fn apply_branch_patch(
 
     #[cfg(not(target_os = "macos"))]
     {
-        const BRANCH_RANGE: std::ops::RangeInclusive<isize> = -0x2000000..=0x1FFF_FFFF; // ±32MB
+        const BRANCH_RANGE: std::ops::RangeInclusive<isize> = -0x2000000..=0x1FF_FFFF; // imm26 words = ±128MB
 
         let offset = (jit_addr as isize - func_addr as isize) / 4;
         if !BRANCH_RANGE.contains(&offset) {
